@@ -1,3 +1,5 @@
+import CfdpVerif.Props.C02
+import CfdpVerif.Props.C03
 import CfdpVerif.Model.World
 import CfdpVerif.Lemmas.Monad
 /-!
@@ -7,6 +9,11 @@ Model: `cancelRequest` of both handlers, the sender's `noticeOfCancellation`, th
 completion (`handleTransferCompletion`, `noticeOfCompletion`, `prepareFinishedPdu`) and its handling
 of an EOF (cancel) (`handleEofPdu`).  All statements hold for every handler state satisfying the
 stated hypotheses, i.e. for every cancellation point.
+
+Composed over both models (`C12_end_to_end_cancel_unack`, `C12_end_to_end_cancel_ack`): the sender's run up to
+the cancel request, the EOF (cancel) with size and checksum of exactly the prefix sent, the receiver's
+completion with the cancel condition and the sender as fault location, the deletion of the incomplete file
+exactly when the disposition is configured and — acknowledged mode — the Finished (cancel) PDU coming back.
 -/
 set_option linter.unusedSimpArgs false
 set_option linter.unusedVariables false
@@ -179,5 +186,532 @@ theorem C12_source_second_cancel_abandons (env : Source.Env) (tid t : Tid) (s : 
       Source.abandonTransaction, Source.resetInternal]
     rfl
   · simp
+
+/-! ## Whole runs: a cancel request at the sender in the middle of the file (unacknowledged mode) -/
+
+section WholeRuns
+open Cfdp.Dest Cfdp.C02
+
+/-- the receiver after an EOF (cancel) of an unacknowledged transfer without closure -/
+def afterEofCancel (env : Env) (d : DestSt) (t : Tid) (cond : Nat) (rc : RemoteCfg) : DestSt :=
+  { d with state := .idle, step := .IDLE, p := {},
+           fs := if rc.disp then (Fs.deleteFile d.fs d.p.fileName).2 else d.fs,
+           inds := d.inds ++ (if env.cfg.indEofRecv then [.eofRecv t] else []) ++
+             (if env.cfg.indFinished
+               then [.finished (some t) ⟨cond, dcIncomplete,
+                 if rc.disp then fsDiscardedDeliberately else fsRetained, some rc.entityId⟩] else []) }
+
+/-- **EOF (cancel) at the receiver (whole call, unacknowledged, no closure)**: the transaction ends
+in that call; the user is told the EOF's condition with the sender as fault location and Data
+incomplete; the file is deleted exactly when disposition-on-cancellation is configured -/
+theorem C12_dest_eof_cancel_call (env : Env) (d : DestSt) (dst : String) (P cks : List UInt8) (rc : RemoteCfg)
+    (t : Tid) (ck : Nat) (h : Hdr) (cond size : Nat) (hr : Receiving d dst P rc t ck false)
+    (ha : Admissible env rc h) (hcond : cond ≠ ccNoError) :
+    stateMachine env (some (.eof h cond cks size none)) d = .ok () (afterEofCancel env d t cond rc) := by
+  cases hi : env.cfg.indEofRecv <;> cases hf : env.cfg.indFinished <;> cases hd : rc.disp <;>
+  msimp [stateMachine, stateMachineWith, checkInsertedPacket, Pdu.hdr, ha.hdir, ha.hdst, ha.hsrc, Pdu.kind,
+    Route.getPacketDestination, hr.hbusy, transmissionMode, hr.hmode, nonIdleFsm,
+    fsmAdvancementAfterPacketsWereSent, hr.hqueue, hr.hstep, fsmFromReceiving, handleFdOrEofPdu, handleEofPdu,
+    modP, hi, getP, hr.htid, emitInd, hcond, hr.hrc, triggerNoticeOfCompletionCanceled,
+    fileTransferCompleteTransition, fsmFromWaitingForMetadata, fsmFromCheckLimit,
+    fsmFromWaitingForMissingData, fsmFromTransferCompletion, handleTransferCompletion, noticeOfCompletion,
+    hd, hf, hr.hclosure, resetInternal, fsmFromSendingFinishedPdu, fsmFromWaitingForFinishedAck,
+    afterEofCancel, hr.hfin, dcIncomplete, hr.hname]
+
+end WholeRuns
+
+section AckCancel
+open Cfdp.Dest Cfdp.C02
+
+def cancelP (p : Params) (cond size : Nat) (cks : List UInt8) (floc : EntityId) : Params :=
+  { p with crc32 := cks, fileSizeEof := some size, canceled := true, progress := size,
+           fin := ⟨cond, dcIncomplete, p.fin.fstat, some floc⟩ }
+
+/-- the receiver after an EOF (cancel) in acknowledged mode: the EOF is acknowledged first -/
+def afterEofCancelA (env : Env) (d : DestSt) (t : Tid) (cond size : Nat) (cks : List UInt8) (rc : RemoteCfg) : DestSt :=
+  { d with step := .SENDING_EOF_ACK_PDU, p := cancelP d.p cond size cks rc.entityId,
+           queue := [mkAck d.p.conf dtEof cond tsActive], numReady := 1,
+           inds := d.inds ++ (if env.cfg.indEofRecv then [.eofRecv t] else []) }
+
+/-- **EOF (cancel) at the receiver (whole call, acknowledged mode)**: exactly one ACK (EOF) carrying
+the EOF's condition is queued; the transaction is marked cancelled with that condition and the
+sender as fault location; nothing is written or deleted yet -/
+theorem C12_dest_eof_cancel_call_ack (env : Env) (d : DestSt) (dst : String) (P cks : List UInt8) (rc : RemoteCfg)
+    (t : Tid) (ck : Nat) (conf h : Hdr) (cond size : Nat) (hr : ReceivingA d dst P rc t ck conf)
+    (ha : AdmissibleA env rc h) (hcond : cond ≠ ccNoError) :
+    stateMachine env (some (.eof h cond cks size none)) d = .ok () (afterEofCancelA env d t cond size cks rc) := by
+  have hm : d.p.conf.mode = .ack := by rw [hr.hconf]; exact hr.hmode
+  cases hi : env.cfg.indEofRecv <;>
+  msimp [stateMachine, stateMachineWith, checkInsertedPacket, Pdu.hdr, ha.hdir, ha.hdst, ha.hsrc, Pdu.kind,
+    Route.getPacketDestination, hr.hbusy, transmissionMode, hm, nonIdleFsm,
+    fsmAdvancementAfterPacketsWereSent, hr.hqueue, hr.hstep, fsmFromReceiving, handleFdOrEofPdu, handleEofPdu,
+    modP, hi, getP, hr.htid, emitInd, hcond, hr.hrc, triggerNoticeOfCompletionCanceled,
+    fileTransferCompleteTransition, prepareEofAckPacket, addPacket, hr.hready,
+    fsmFromWaitingForMetadata, fsmFromCheckLimit,
+    fsmFromWaitingForMissingData, fsmFromTransferCompletion, fsmFromSendingFinishedPdu, fsmFromWaitingForFinishedAck,
+    afterEofCancelA, cancelP, hr.hfin, dcIncomplete, dtEof]
+
+def doneCancelP (p : Params) (now ms : Nat) (disp : Bool) : Params :=
+  { p with fin := { p.fin with fstat := if disp then fsDiscardedDeliberately else p.fin.fstat },
+           ackTimer := some ⟨now, ms⟩, ackCounter := 0 }
+
+/-- the receiver after the call that follows the retrieval of the ACK (EOF) of a cancelled transfer -/
+def afterCancelCompletion (env : Env) (d : DestSt) (rc : RemoteCfg) : DestSt :=
+  { d with step := .WAITING_FOR_FINISHED_ACK, p := doneCancelP d.p env.now rc.ackMs rc.disp,
+           fs := if rc.disp then (Fs.deleteFile d.fs d.p.fileName).2 else d.fs,
+           queue := [mkFin d.p.conf { d.p.fin with fstat := if rc.disp then fsDiscardedDeliberately else d.p.fin.fstat }],
+           numReady := 1,
+           inds := d.inds ++ (if env.cfg.indFinished
+             then [.finished d.p.tid { d.p.fin with fstat := if rc.disp then fsDiscardedDeliberately else d.p.fin.fstat }]
+             else []) }
+
+/-- **Completion of a cancelled transfer (whole call, acknowledged mode)**: the user is told (the
+stored cancel condition, fault location, Data incomplete), the incomplete file is deleted exactly
+when the disposition is configured, exactly one Finished PDU with those values is queued and its
+positive ACK procedure started -/
+theorem C12_dest_cancel_completion_call (env : Env) (d : DestSt) (rc : RemoteCfg)
+    (hb : d.state = .busy) (hstep : d.step = .SENDING_EOF_ACK_PDU) (hq : d.queue = []) (hr : d.numReady = 0)
+    (hc : d.p.canceled = true) (hrc : d.p.remoteCfg = some rc) (hm : d.p.conf.mode = .ack)
+    (hinc : d.p.fin.deliv = dcIncomplete) (hms : rc.ackMs ≠ 0) :
+    stateMachine env none d = .ok () (afterCancelCompletion env d rc) := by
+  unfold stateMachine
+  generalize (stateMachineWith env none (stateMachineWith env none (throw Err.recursionError))) = rec
+  cases hf : env.cfg.indFinished <;> cases hd : rc.disp <;>
+  msimp [stateMachineWith, hb, nonIdleFsm, fsmAdvancementAfterPacketsWereSent, hq, hstep, hc,
+    fsmFromReceiving, fsmFromWaitingForMetadata, fsmFromCheckLimit, fsmFromWaitingForMissingData,
+    fsmFromTransferCompletion, handleTransferCompletion, noticeOfCompletion, hrc, hd, hinc, hf, getP, emitInd,
+    transmissionMode, hm, fsmFromSendingFinishedPdu, hr, prepareFinishedPdu, addPacket,
+    handleFinishedPduSent, startPositiveAckProcedure, modP, fsmFromWaitingForFinishedAck,
+    handleWaitingForFinishedAck, handlePositiveAckProcedures, Timer.timedOut, hms, afterCancelCompletion,
+    doneCancelP]
+  all_goals (
+    have e : d.p.fin = { cond := d.p.fin.cond, deliv := dcIncomplete, fstat := d.p.fin.fstat, floc := d.p.fin.floc } := by
+      cases hfin : d.p.fin; simp_all
+    try simp [← e])
+
+end AckCancel
+
+open Source.C07 in
+/-- draining after every call keeps the ready counter where it was while tiles are streamed -/
+theorem stream_keeps_numReady (env : Source.Env) (req : Source.PutReq) (src : String) (F : List UInt8) :
+    ∀ (k : Nat) (s s' : Source.SrcSt) (out : List Pdu), Sending s req src F →
+      (k = 0 ∨ s.p.progress + (k - 1) * s.p.segmentLen < F.length) →
+      rounds env k s = some (out, s') → s'.numReady = s.numReady := by
+  intro k
+  induction k with
+  | zero => intro s s' out _ _ h; simp [rounds] at h; rw [h.2]
+  | succ k ih =>
+    intro s s' out hs hk hr
+    have hlt : s.p.progress < s.p.fileSize := by
+      rw [hs.hsize]; rcases hk with h | h
+      · omega
+      · exact Nat.lt_of_le_of_lt (Nat.le_add_right _ _) h
+    have hcall := C07_file_data_call env s req src F hs.hbusy hs.hstep hs.hqueue hs.hreq hs.hsrc hs.hfile hlt hs.hnotMo
+    obtain ⟨hrl, hpos, hle, hle2, hinv'⟩ := C07_read_len_is_tile s.p hs.hinv hlt
+    have hs' : Sending (drained (afterTile s F)) req src F :=
+      { hbusy := by simp [drained, afterTile, hs.hbusy], hstep := by simp [drained, afterTile],
+        hqueue := by simp [drained], hreq := by simp [drained, afterTile, hs.hreq], hsrc := hs.hsrc,
+        hfile := by simp [drained, afterTile, hs.hfile], hsize := by simp [drained, afterTile, hs.hsize],
+        hnotMo := by simp [drained, afterTile, hs.hnotMo], hinv := by simpa [drained, afterTile] using hinv' }
+    have hk' : k = 0 ∨ (drained (afterTile s F)).p.progress + (k - 1) * (drained (afterTile s F)).p.segmentLen
+        < F.length := by
+      by_cases hk0 : k = 0
+      · exact Or.inl hk0
+      · right
+        have h := hk.resolve_left (by omega)
+        simp only [drained, afterTile, Nat.add_sub_cancel] at *
+        have hseg : s.p.progress + s.p.segmentLen ≤ s.p.progress + k * s.p.segmentLen :=
+          Nat.add_le_add_left (Nat.le_mul_of_pos_left _ (by omega)) _
+        have hrl' : Source.readLen s.p = s.p.segmentLen := by rw [hrl, hs.hsize]; omega
+        rw [hrl']
+        have : s.p.progress + s.p.segmentLen + (k - 1) * s.p.segmentLen = s.p.progress + k * s.p.segmentLen := by
+          have : k = (k - 1) + 1 := by omega
+          rw [this, Nat.add_mul]; simp; omega
+        omega
+    simp only [rounds, round, hcall] at hr
+    cases hrr : rounds env k (drained (afterTile s F)) with
+    | none => simp [hrr] at hr
+    | some x =>
+      obtain ⟨o, s''⟩ := x
+      simp [hrr] at hr
+      have := ih _ s'' o hs' hk' hrr
+      rw [← hr.2, this]
+      simp [drained, afterTile]
+
+open Source.C07 Source.C19 Cfdp.C02 in
+/-- **A cancel request at the sender in the middle of the file: the two models composed**
+(unacknowledged mode, no closure).  The sender has emitted Metadata and `m` tiles — not the whole file
+— when its user cancels the transaction.  The request returns true; the very next PDU is an EOF with
+condition Cancel request received, file size `m·seg` (the bytes sent) and the checksum of exactly that
+prefix; the sender is idle at once, so no further file data follows.  The receiver, which has taken
+Metadata and the tiles, finishes with that EOF: its user gets Transaction-Finished with the cancel
+condition, the sender as fault location and Data incomplete; the incomplete file is deleted (the filestore's delete operation is applied to the destination path,
+`C17`) exactly when disposition-on-cancellation is configured; the handler is idle; no other path changes. -/
+theorem C12_end_to_end_cancel_unack (envS : Source.Env) (envD : Dest.Env) (s : Source.SrcSt) (d0 : Dest.DestSt)
+    (req : Source.PutReq) (rcS rcD : RemoteCfg) (src dst : String) (F cks : List UInt8) (seg m : Nat) (tidU : Tid)
+    (hst : s.state = .busy) (hstep : s.step = .IDLE) (hq : s.queue = []) (hnr : s.numReady = 0)
+    (hreq : s.putReq = some req)
+    (hpmo : s.p.metadataOnly = false) (hsrc : req.src = some src) (hdst : req.dst = some dst)
+    (hfile : s.fs.get src = some (.file F)) (hF : F ≠ []) (hprog : s.p.progress = 0)
+    (hrc : s.p.remoteCfg = some rcS) (hbits : s.prov.bits = 8 ∨ s.prov.bits = 16 ∨ s.prov.bits = 32)
+    (hseg : Source.segLenOf rcS (startConf envS req rcS s (decide (F.length > 4294967295))) = some seg)
+    (hseg0 : 0 < seg) (hmode : s.p.conf.mode = .unack) (hcl : s.p.closure = false)
+    (hce : s.p.condCodeEof = none)
+    (hm : m * seg < F.length)
+    (hcks : Checksum.calcChecksum (Checksum.CksType.ofNat rcS.cks) F (m * seg) seg = .ok cks)
+    (hnull : Checksum.CksType.ofNat rcS.cks ≠ .null) (hlen : cks.length = 4)
+    (hidU : sameTid ⟨envS.cfg.entityId, ⟨s.prov.next, s.prov.bits / 8⟩⟩ tidU = true)
+    (ha : Admissible envD rcD { startConf envS req rcS s (decide (F.length > 4294967295)) with dir := .toRecv })
+    (hidle : d0.state = .idle) (hdq : d0.queue = []) (hdr : d0.numReady = 0) (hrej : d0.rejects = [])
+    (hfl : d0.flts = []) (hnd : Fs.isDir d0.fs dst = false)
+    (hok : (∃ old, d0.fs.get dst = some (.file old)) ∨
+           (Fs.exists' d0.fs dst = false ∧ Fs.parentIsDir d0.fs dst = true)) :
+    let conf := startConf envS req rcS s (decide (F.length > 4294967295))
+    let eofC := Source.mkEof conf ccCancelRequest cks (m * seg)
+    ∃ pdus s2 s3 d2 d3,
+      rounds envS (1 + m) s = some (pdus, s2) ∧
+      Source.cancelRequest envS tidU s2 = .ok true s3 ∧ s3.queue = [eofC] ∧ s3.state = .idle ∧
+      (∀ env', Source.stateMachine env' none (Source.C07.drained s3) = .ok () (Source.C07.drained s3)) ∧
+      feedPdus envD pdus d0 = some d2 ∧
+      Dest.stateMachine envD (some eofC) d2 = .ok () d3 ∧
+      d3.state = .idle ∧ d3.queue = [] ∧ d3.flts = [] ∧
+      (rcD.disp = false → d3.fs.get dst = some (.file (F.take (m * seg)))) ∧
+      (rcD.disp = true → d3.fs = (Fs.deleteFile d2.fs dst).2) ∧
+      (∀ q, q ≠ dst → d3.fs.get q = d0.fs.get q) ∧
+      d3.inds.filter isFinished = d0.inds.filter isFinished ++
+        (if envD.cfg.indFinished
+          then [.finished (some ⟨conf.src, conf.seq⟩) ⟨ccCancelRequest, dcIncomplete,
+            if rcD.disp then fsDiscardedDeliberately else fsRetained, some rcD.entityId⟩] else []) := by
+  intro conf eofC
+  -- the sender up to tile m
+  obtain ⟨hcall1, hS1⟩ := C07_metadata_call envS s req rcS src dst F seg hst hstep hq hreq hpmo hsrc hdst hfile hF
+    hprog hrc hbits hseg hseg0
+  have hkm : m = 0 ∨ (Source.C07.drained (afterMetadata envS s req rcS src dst F seg)).p.progress +
+      (m - 1) * (Source.C07.drained (afterMetadata envS s req rcS src dst F seg)).p.segmentLen < F.length := by
+    rcases Nat.eq_zero_or_pos m with h0 | h0
+    · exact Or.inl h0
+    · right
+      simp only [Source.C07.drained, afterMetadata, hprog, Nat.zero_add]
+      have : (m - 1) * seg ≤ m * seg := Nat.mul_le_mul_right _ (by omega)
+      omega
+  obtain ⟨s2, hr2, hp2, hc2, hsg2, hst2, hS2, hFr2⟩ := C07_stream_tiles envS req src F m _ hS1 hkm
+  have hnr2 := stream_keeps_numReady envS req src F m _ s2 _ hS1 hkm hr2
+  simp only [Frame] at hFr2
+  obtain ⟨f1, f2, f3, f4, f5, f6, f7, f8, f9, f10, f11, f12, f13, f14, f15, f16⟩ := hFr2
+  have hconf2 : s2.p.conf = conf := by rw [hc2]; simp [Source.C07.drained, afterMetadata, conf]
+  have hseg2 : s2.p.segmentLen = seg := by rw [hsg2]; simp [Source.C07.drained, afterMetadata]
+  have hprog2 : s2.p.progress = m * seg := by
+    rw [hp2]; simp only [Source.C07.drained, afterMetadata, hprog, Nat.zero_add]
+    exact Nat.min_eq_right (by omega)
+  have hrun1 : rounds envS (1 + m) s = some
+      ([Source.mkMd conf s.p.closure rcS.cks F.length (some src) (some dst) (some (req.msgs.getD []))] ++
+        (List.range m).map (tile conf F seg 0), s2) := by
+    have h1r : rounds envS 1 s = some
+        ([Source.mkMd conf s.p.closure rcS.cks F.length (some src) (some dst) (some (req.msgs.getD []))],
+         Source.C07.drained (afterMetadata envS s req rcS src dst F seg)) := by
+      simp only [rounds, round, hcall1]
+      simp [afterMetadata, conf]
+    rw [rounds_add envS 1 m s, h1r]
+    simp only [hr2]
+    simp [Source.C07.drained, afterMetadata, hprog, conf]
+  -- the cancel request
+  obtain ⟨s3, hcan, hq3, hidle3, -⟩ := C12_source_cancel_eof envS tidU ⟨envS.cfg.entityId, ⟨s.prov.next, s.prov.bits / 8⟩⟩
+    s2 req rcS src F cks hS2.hbusy
+    (by rw [hnr2]; simp [Source.C07.drained, afterMetadata, hnr])
+    (by rw [f2]; simp [Source.C07.drained, afterMetadata]) hidU
+    (by simp [Source.cancelInProgress, f16, Source.C07.drained, afterMetadata, hce])
+    hS2.hreq hS2.hsrc hS2.hnotMo hS2.hfile (by rw [f1]; simp [Source.C07.drained, afterMetadata, hrc]) hnull
+    (by rw [hprog2, hseg2]; exact hcks) hlen
+  have hmode2 : s2.p.conf.mode = .unack := by rw [hconf2]; simp [conf, startConf, hmode]
+  have hid3 := hidle3 hmode2
+  rw [hS2.hqueue, List.nil_append, hconf2, hprog2] at hq3
+  -- the receiver
+  obtain ⟨hmd, hR1⟩ := C02_metadata envD d0 { conf with dir := .toRecv } rcD rcS.cks F.length src dst
+    (some (req.msgs.getD [])) false ha hidle hdq hdr hrej hfl hnd hok
+  obtain ⟨d2, hfeed2, hR2, hother2, hfin2, _⟩ := receiver_takes_tiles envD conf rcD _ rcS.cks dst false F seg hseg0 ha m _
+    (by rcases Nat.eq_zero_or_pos m with h0 | h0
+        · exact Or.inl h0
+        · right
+          have : (m - 1) * seg ≤ m * seg := Nat.mul_le_mul_right _ (by omega)
+          omega) hR1
+  have heofc := C12_dest_eof_cancel_call envD d2 dst (F.take (m * seg)) cks rcD _ rcS.cks { conf with dir := .toRecv }
+    ccCancelRequest (m * seg) hR2 ha (by decide)
+  have hfeed : feedPdus envD
+      ([Source.mkMd conf s.p.closure rcS.cks F.length (some src) (some dst) (some (req.msgs.getD []))] ++
+        (List.range m).map (tile conf F seg 0)) d0 = some d2 := by
+    have hmdq : Source.mkMd conf s.p.closure rcS.cks F.length (some src) (some dst) (some (req.msgs.getD [])) =
+        Pdu.md { conf with dir := .toRecv } false rcS.cks F.length (some src) (some dst) (some (req.msgs.getD [])) := by
+      simp [Source.mkMd, hcl]
+    rw [feedPdus_append, hmdq]
+    simp only [feedPdus, hmd, Option.bind, hfeed2]
+  have hget2 : ∀ q, q ≠ dst → d2.fs.get q = d0.fs.get q := by
+    intro q hq'
+    rw [hother2 q hq']
+    simp [afterMd, Fs.C17.get_set_other _ _ _ _ hq']
+  refine ⟨_, s2, s3, d2, afterEofCancel envD d2 ⟨conf.src, conf.seq⟩ ccCancelRequest rcD, hrun1, hcan, hq3, hid3, ?_, hfeed, ?_, rfl, hR2.hqueue, hR2.hflts, ?_, ?_, ?_, ?_⟩
+  · intro env'
+    msimp [Source.stateMachine, Source.C07.drained, hid3]
+  · simpa [eofC, Source.mkEof] using heofc
+  · intro hd
+    simp [afterEofCancel, hd, hR2.hfile]
+  · intro hd
+    simp [afterEofCancel, hd, hR2.hname]
+  · intro q hq'
+    simp only [afterEofCancel, hR2.hname]
+    cases hd : rcD.disp
+    · simp; exact hget2 q hq'
+    · simp only [ite_true, Fs.deleteFile]
+      split
+      · exact hget2 q hq'
+      · split
+        · exact hget2 q hq'
+        · rw [Fs.C17.get_del_other _ _ _ hq']; exact hget2 q hq'
+  · simp only [afterEofCancel, List.filter_append, hfin2]
+    have h1 : (afterMd envD d0 { conf with dir := .toRecv } rcD rcS.cks F.length src dst
+        (some (req.msgs.getD [])) false).inds.filter isFinished = d0.inds.filter isFinished := by
+      simp [afterMd, isFinished]
+    rw [h1]
+    cases envD.cfg.indEofRecv <;> cases envD.cfg.indFinished <;> simp [isFinished]
+
+def cancelSP (p : Source.Params) (now ms : Nat) : Source.Params :=
+  { p with condCodeEof := some ccCancelRequest, ackTimer := some ⟨now, ms⟩, ackCounter := 0 }
+
+/-- sender after an accepted cancel request, acknowledged mode -/
+def afterCancelS (env : Source.Env) (s : Source.SrcSt) (rc : RemoteCfg) (cks : List UInt8) (t : Tid) : Source.SrcSt :=
+  { s with step := .WAITING_FOR_EOF_ACK, p := cancelSP s.p env.now rc.ackMs,
+           queue := s.queue ++ [Source.mkEof s.p.conf ccCancelRequest cks s.p.progress],
+           numReady := s.numReady + 1,
+           inds := s.inds ++ (if env.cfg.indEofSent then [Ind.eofSent t] else []) }
+
+/-- `C12_source_cancel_eof` in acknowledged mode, with the exact resulting state -/
+theorem C12_source_cancel_eof_ack_exact (env : Source.Env) (tid t : Tid) (s : Source.SrcSt) (req : Source.PutReq)
+    (rc : RemoteCfg) (src : String) (cks : List UInt8)
+    (hb : s.state = .busy) (hr : ¬ s.numReady > 0) (ht : s.p.tid = some t)
+    (hid : t.src.val = tid.src.val ∧ t.seq.val = tid.seq.val)
+    (hnc : Source.cancelInProgress s.p = none)
+    (hreq : s.putReq = some req) (hsrc : req.src = some src) (hmo : s.p.metadataOnly = false)
+    (hrc : s.p.remoteCfg = some rc) (hm : s.p.conf.mode = .ack)
+    (hc : Fs.calcChecksum s.fs (Checksum.CksType.ofNat rc.cks) src s.p.progress s.p.segmentLen = .ok cks)
+    (hlen : cks.length = 4) :
+    Source.cancelRequest env tid s = .ok true (afterCancelS env s rc cks t) := by
+  cases hi : env.cfg.indEofSent <;>
+  msimp [Source.cancelRequest, hb, hr, ht, hid.1, hid.2, Source.noticeOfCancellation, hnc, Source.getP,
+    Source.modP, Source.checksumCalculation, hreq, hsrc, hmo, hrc, hc, Source.prepareEofPdu, hlen,
+    Source.addPacket, Source.emitInd, hi, Source.handleEofSent, Source.transmissionMode, hm,
+    Source.startPositiveAckProcedure, afterCancelS, cancelSP]
+
+open Source.C07 Source.C19 Cfdp.C02 Cfdp.C03 in
+/-- **A cancel request at the sender in the middle of the file, acknowledged mode: the two models
+composed.**  As `C12_end_to_end_cancel_unack` up to the EOF (Cancel request received, size and
+checksum of exactly the prefix sent); the sender then waits for the ACK of that EOF.  The receiver
+acknowledges it with the same condition; its next call tells its user (cancel condition, the sender
+as fault location, Data incomplete), deletes the incomplete file exactly when the disposition is
+configured and emits one Finished PDU with those values; the sender records them, acknowledges, and
+reports the very same values to its user; both end idle.  No call raises. -/
+theorem C12_end_to_end_cancel_ack (envS : Source.Env) (envD : Dest.Env) (s : Source.SrcSt) (d0 : Dest.DestSt)
+    (req : Source.PutReq) (rcS rcD : RemoteCfg) (src dst : String) (F cks : List UInt8) (seg m : Nat) (tidU : Tid)
+    (t1 t2 t3 t4 t5 : Nat)
+    (hst : s.state = .busy) (hstep : s.step = .IDLE) (hq : s.queue = []) (hnr : s.numReady = 0)
+    (hreq : s.putReq = some req)
+    (hpmo : s.p.metadataOnly = false) (hsrc : req.src = some src) (hdst : req.dst = some dst)
+    (hfile : s.fs.get src = some (.file F)) (hF : F ≠ []) (hprog : s.p.progress = 0)
+    (hrc : s.p.remoteCfg = some rcS) (hrcid : rcS.entityId.val = req.destId.val)
+    (hbits : s.prov.bits = 8 ∨ s.prov.bits = 16 ∨ s.prov.bits = 32)
+    (hseg : Source.segLenOf rcS (startConf envS req rcS s (decide (F.length > 4294967295))) = some seg)
+    (hseg0 : 0 < seg) (hmode : s.p.conf.mode = .ack) (hct : s.p.checkTimer = none)
+    (hce : s.p.condCodeEof = none)
+    (hm : m * seg < F.length)
+    (hcks : Checksum.calcChecksum (Checksum.CksType.ofNat rcS.cks) F (m * seg) seg = .ok cks)
+    (hnull : Checksum.CksType.ofNat rcS.cks ≠ .null) (hlen : cks.length = 4)
+    (hidU : sameTid ⟨envS.cfg.entityId, ⟨s.prov.next, s.prov.bits / 8⟩⟩ tidU = true)
+    (ha : AdmissibleA envD rcD { startConf envS req rcS s (decide (F.length > 4294967295)) with dir := .toRecv })
+    (hackD : rcD.ackMs ≠ 0)
+    (hidle : d0.state = .idle) (hdq : d0.queue = []) (hdr : d0.numReady = 0) (hrej : d0.rejects = [])
+    (hfl : d0.flts = []) (hnd : Fs.isDir d0.fs dst = false)
+    (hok : (∃ old, d0.fs.get dst = some (.file old)) ∨
+           (Fs.exists' d0.fs dst = false ∧ Fs.parentIsDir d0.fs dst = true)) :
+    let conf := startConf envS req rcS s (decide (F.length > 4294967295))
+    let cd : Hdr := ⟨.toSend, conf.mode, conf.crc, conf.large, conf.src, conf.dst, conf.seq⟩
+    let tid : Tid := ⟨envS.cfg.entityId, ⟨s.prov.next, s.prov.bits / 8⟩⟩
+    let eofC := Source.mkEof conf ccCancelRequest cks (m * seg)
+    let fpC : FinishedParams := ⟨ccCancelRequest, dcIncomplete,
+      if rcD.disp then fsDiscardedDeliberately else fsRetained, some rcD.entityId⟩
+    ∃ pdus s2 s3 d2 d3 s4 d4 s5 d5 s6,
+      rounds envS (1 + m) s = some (pdus, s2) ∧
+      Source.cancelRequest envS tidU s2 = .ok true s3 ∧ s3.queue = [eofC] ∧
+      feedPdus envD pdus d0 = some d2 ∧
+      Dest.stateMachine envD (some eofC) d2 = .ok () d3 ∧
+      d3.queue = [.ack cd dtEof ccCancelRequest tsActive] ∧
+      Source.stateMachine ⟨envS.cfg, t1⟩ (some (.ack cd dtEof ccCancelRequest tsActive)) (Source.C07.drained s3) = .ok () s4 ∧
+      s4.queue = [] ∧
+      Dest.stateMachine ⟨envD.cfg, t2⟩ none (drained d3) = .ok () d4 ∧ d4.queue = [.fin cd fpC] ∧
+      Source.stateMachine ⟨envS.cfg, t3⟩ (some (.fin cd fpC)) s4 = .ok () s5 ∧
+      s5.queue = [Source.mkAck conf dtFinished ccCancelRequest tsActive] ∧
+      Dest.stateMachine ⟨envD.cfg, t4⟩ (some (Source.mkAck conf dtFinished ccCancelRequest tsActive)) (drained d4) = .ok () d5 ∧
+      Source.stateMachine ⟨envS.cfg, t5⟩ none (Source.C07.drained s5) = .ok () s6 ∧
+      s6.state = .idle ∧ d5.state = .idle ∧ s6.queue = [] ∧ d5.queue = [] ∧ d5.flts = [] ∧
+      (rcD.disp = false → d5.fs.get dst = some (.file (F.take (m * seg)))) ∧
+      (rcD.disp = true → d5.fs = (Fs.deleteFile d2.fs dst).2) ∧
+      (∀ q, q ≠ dst → d2.fs.get q = d0.fs.get q) ∧
+      s6.inds.filter isFinished = s.inds.filter isFinished ++
+        (if envS.cfg.indFinished then [.finished (some tid) fpC] else []) ∧
+      d5.inds.filter isFinished = d0.inds.filter isFinished ++
+        (if envD.cfg.indFinished then [.finished (some ⟨conf.src, conf.seq⟩) fpC] else []) := by
+  intro conf cd tid eofC fpC
+  have hsrcv : conf.src.val = envS.cfg.entityId.val := by simp [conf, startConf]
+  have hdstv : conf.dst.val = rcS.entityId.val := by simp [conf, startConf, hrcid]
+  have hmodeC : conf.mode = .ack := by simp [conf, startConf, hmode]
+  -- the sender up to tile m
+  obtain ⟨hcall1, hS1⟩ := C07_metadata_call envS s req rcS src dst F seg hst hstep hq hreq hpmo hsrc hdst hfile hF
+    hprog hrc hbits hseg hseg0
+  have hkm : m = 0 ∨ (Source.C07.drained (afterMetadata envS s req rcS src dst F seg)).p.progress +
+      (m - 1) * (Source.C07.drained (afterMetadata envS s req rcS src dst F seg)).p.segmentLen < F.length := by
+    rcases Nat.eq_zero_or_pos m with h0 | h0
+    · exact Or.inl h0
+    · right
+      simp only [Source.C07.drained, afterMetadata, hprog, Nat.zero_add]
+      have : (m - 1) * seg ≤ m * seg := Nat.mul_le_mul_right _ (by omega)
+      omega
+  obtain ⟨s2, hr2, hp2, hc2, hsg2, hst2, hS2, hFr2⟩ := C07_stream_tiles envS req src F m _ hS1 hkm
+  have hnr2 := stream_keeps_numReady envS req src F m _ s2 _ hS1 hkm hr2
+  simp only [Frame] at hFr2
+  obtain ⟨f1, f2, f3, f4, f5, f6, f7, f8, f9, f10, f11, f12, f13, f14, f15, f16⟩ := hFr2
+  have hconf2 : s2.p.conf = conf := by rw [hc2]; simp [Source.C07.drained, afterMetadata, conf]
+  have hseg2 : s2.p.segmentLen = seg := by rw [hsg2]; simp [Source.C07.drained, afterMetadata]
+  have hprog2 : s2.p.progress = m * seg := by
+    rw [hp2]; simp only [Source.C07.drained, afterMetadata, hprog, Nat.zero_add]
+    exact Nat.min_eq_right (by omega)
+  have hrun1 : rounds envS (1 + m) s = some
+      ([Source.mkMd conf s.p.closure rcS.cks F.length (some src) (some dst) (some (req.msgs.getD []))] ++
+        (List.range m).map (tile conf F seg 0), s2) := by
+    have h1r : rounds envS 1 s = some
+        ([Source.mkMd conf s.p.closure rcS.cks F.length (some src) (some dst) (some (req.msgs.getD []))],
+         Source.C07.drained (afterMetadata envS s req rcS src dst F seg)) := by
+      simp only [rounds, round, hcall1]
+      simp [afterMetadata, conf]
+    rw [rounds_add envS 1 m s, h1r]
+    simp only [hr2]
+    simp [Source.C07.drained, afterMetadata, hprog, conf]
+  -- the cancel request: exact resulting state
+  have hc : Fs.calcChecksum s2.fs (Checksum.CksType.ofNat rcS.cks) src s2.p.progress s2.p.segmentLen = .ok cks := by
+    rw [hprog2, hseg2]; simp [Fs.calcChecksum, hnull, hS2.hfile, hcks]
+  have htid2 : s2.p.tid = some tid := by rw [f2]; simp [Source.C07.drained, afterMetadata, tid]
+  have hrc2 : s2.p.remoteCfg = some rcS := by rw [f1]; simp [Source.C07.drained, afterMetadata, hrc]
+  have hmode2 : s2.p.conf.mode = .ack := by rw [hconf2]; exact hmodeC
+  have hid' : envS.cfg.entityId.val = tidU.src.val ∧ s.prov.next = tidU.seq.val := by
+    simpa [sameTid, tid] using hidU
+  have hcan := C12_source_cancel_eof_ack_exact envS tidU tid s2 req rcS src cks hS2.hbusy
+    (by rw [hnr2]; simp [Source.C07.drained, afterMetadata, hnr]) htid2 hid'
+    (by simp [Source.cancelInProgress, f16, Source.C07.drained, afterMetadata, hce])
+    hS2.hreq hS2.hsrc hS2.hnotMo hrc2 hmode2 hc hlen
+  -- the receiver up to the EOF (cancel)
+  obtain ⟨hmd, hR1⟩ := C02_metadata_ack envD d0 { conf with dir := .toRecv } rcD s.p.closure rcS.cks F.length src dst
+    (some (req.msgs.getD [])) ha hidle hdq hdr hrej hfl hnd hok
+  obtain ⟨d2, hfeed2, hR2, hother2, hfin2⟩ := receiver_takes_tiles_ack envD conf _ rcD _ rcS.cks dst F seg hseg0 ha m _
+    (by rcases Nat.eq_zero_or_pos m with h0 | h0
+        · exact Or.inl h0
+        · right
+          have : (m - 1) * seg ≤ m * seg := Nat.mul_le_mul_right _ (by omega)
+          omega) hR1
+  have heofc := C12_dest_eof_cancel_call_ack envD d2 dst (F.take (m * seg)) cks rcD _ rcS.cks cd
+    { conf with dir := .toRecv } ccCancelRequest (m * seg) hR2 ha (by decide)
+  have hfeed : feedPdus envD
+      ([Source.mkMd conf s.p.closure rcS.cks F.length (some src) (some dst) (some (req.msgs.getD []))] ++
+        (List.range m).map (tile conf F seg 0)) d0 = some d2 := by
+    rw [feedPdus_append]
+    simp only [feedPdus, Source.mkMd, hmd, Option.bind, hfeed2]
+  have hget2 : ∀ q, q ≠ dst → d2.fs.get q = d0.fs.get q := by
+    intro q hq'
+    rw [hother2 q hq']
+    simp [afterMdA, Fs.C17.get_set_other _ _ _ _ hq']
+  -- ACK (EOF) at the sender
+  have hadm : ∀ t (s' : Source.SrcSt), s'.p.conf = conf → s'.p.remoteCfg = some rcS →
+      AdmissibleS ⟨envS.cfg, t⟩ s' rcS cd := fun t s' h1 h2 =>
+    { hdir := rfl, hsrc := hsrcv, hrc := h2, hdst := hdstv, hseq := by rw [h1], hmode := by rw [h1]; exact hmodeC }
+  have hq2 : s2.queue = [] := hS2.hqueue
+  have h4 := C02_source_eof_acked ⟨envS.cfg, t1⟩ (Source.C07.drained (afterCancelS envS s2 rcS cks tid)) rcS cd
+    ccCancelRequest tsActive req (hadm t1 _ hconf2 hrc2) hS2.hbusy rfl rfl hS2.hreq
+    (by show s2.p.checkTimer = none; rw [f15]; simp [Source.C07.drained, afterMetadata, hct])
+  -- completion of the cancelled transfer at the receiver
+  have h5 := C12_dest_cancel_completion_call ⟨envD.cfg, t2⟩
+    (drained (afterEofCancelA envD d2 ⟨conf.src, conf.seq⟩ ccCancelRequest (m * seg) cks rcD)) rcD hR2.hbusy rfl rfl rfl rfl
+    hR2.hrc (by show d2.p.conf.mode = .ack; rw [hR2.hconf]; exact hmodeC) rfl hackD
+  -- the Finished (cancel) PDU at the sender
+  have h6 := C03_sender_finished_any ⟨envS.cfg, t3⟩
+    { Source.C07.drained (afterCancelS envS s2 rcS cks tid) with step := .WAITING_FOR_FINISHED } rcS cd fpC req
+    (hadm t3 _ hconf2 hrc2) hS2.hbusy (Or.inr (Or.inl rfl)) rfl hS2.hreq
+  have h7 := C02_finished_acked ⟨envD.cfg, t4⟩
+    (drained (afterCancelCompletion ⟨envD.cfg, t2⟩
+      (drained (afterEofCancelA envD d2 ⟨conf.src, conf.seq⟩ ccCancelRequest (m * seg) cks rcD)) rcD))
+    rcD { conf with dir := .toRecv } ccCancelRequest tsActive ⟨rfl, ha.hdst, ha.hsrc, ha.hmode⟩ hR2.hbusy rfl rfl
+    (by show d2.p.conf.mode = .ack; rw [hR2.hconf]; exact hmodeC)
+  have h8 := C02_source_completion ⟨envS.cfg, t5⟩
+    (Source.C07.drained (afterFinS (waitFinS
+      { Source.C07.drained (afterCancelS envS s2 rcS cks tid) with step := .WAITING_FOR_FINISHED }) fpC)) fpC tid req
+    hS2.hbusy rfl rfl hS2.hreq rfl htid2
+  have hfinD : (cancelP d2.p ccCancelRequest (m * seg) cks rcD.entityId).fin =
+      ⟨ccCancelRequest, dcIncomplete, fsRetained, some rcD.entityId⟩ := by
+    simp [cancelP, hR2.hfin]
+  refine ⟨_, s2, _, d2, _, _, _, _,
+    idleOf (drained (afterCancelCompletion ⟨envD.cfg, t2⟩
+      (drained (afterEofCancelA envD d2 ⟨conf.src, conf.seq⟩ ccCancelRequest (m * seg) cks rcD)) rcD)), _,
+    hrun1, hcan, ?_, hfeed, ?_, ?_, h4, rfl, h5, ?_, h6, ?_, ?_, h8, rfl, rfl, rfl, rfl, ?_, ?_, ?_, hget2, ?_, ?_⟩
+  · simp [afterCancelS, hq2, hconf2, hprog2, eofC]
+  · simpa [eofC, Source.mkEof] using heofc
+  · simp [afterEofCancelA, hR2.hconf, Dest.mkAck, dtEof, dtFinished, cd]
+  · cases hd : rcD.disp <;>
+      simp [afterCancelCompletion, C02.drained, afterEofCancelA, cancelP, hR2.hconf, hR2.hfin, Dest.mkFin, cd, fpC, hd]
+  · show [Source.mkAck s2.p.conf dtFinished fpC.cond tsActive] = _
+    rw [hconf2]
+  · simpa [Source.mkAck, dtFinished, idleOf] using h7
+  · simp [idleOf, C02.drained, afterCancelCompletion, afterEofCancelA, hR2.hflts]
+  · intro hd
+    simp [idleOf, C02.drained, afterCancelCompletion, afterEofCancelA, hd, hR2.hfile]
+  · intro hd
+    simp [idleOf, C02.drained, afterCancelCompletion, afterEofCancelA, hd, cancelP, hR2.hname]
+  · simp only [Source.C07.drained, afterFinS, waitFinS, afterCancelS, List.filter_append, f4]
+    cases envS.cfg.indEofSent <;> cases envS.cfg.indFinished <;>
+      simp [isFinished, Source.C07.drained, afterMetadata]
+  · simp only [idleOf, C02.drained, afterCancelCompletion, afterEofCancelA, List.filter_append, hfin2, hfinD, cancelP,
+      hR2.htid]
+    have h1 : (afterMdA envD d0 { conf with dir := .toRecv } rcD s.p.closure rcS.cks F.length src dst
+        (some (req.msgs.getD []))).inds.filter isFinished = d0.inds.filter isFinished := by
+      simp [afterMdA, isFinished]
+    rw [h1]
+    cases envD.cfg.indEofRecv <;> cases envD.cfg.indFinished <;> cases hd : rcD.disp <;>
+      simp [isFinished, fpC, hR2.hfin, hd]
+
+
+/-! ### the hypotheses of the composed theorems are satisfiable (non-vacuity) -/
+
+namespace Ex
+open Cfdp.C03.Ex
+
+/-- the sender of `C03.Ex` in unacknowledged mode -/
+def sU : Source.SrcSt :=
+  { s with p := { s.p with conf := { s.p.conf with mode := .unack } } }
+
+/-- a 5-byte file in segments of 2; the user cancels after Metadata and one tile (2 bytes sent);
+unacknowledged mode -/
+example : True := by
+  have h := C12_end_to_end_cancel_unack envS envD sU d0 req rcS rcD "/a" "/b" F [182, 204, 66, 146] 2 1
+    ⟨⟨1, 2⟩, ⟨0, 2⟩⟩
+    rfl rfl rfl rfl rfl rfl rfl rfl rfl (by decide) rfl rfl (by decide) (by decide) (by decide) rfl rfl rfl
+    (by decide) (by decide +kernel) (by decide) rfl (by decide)
+    ⟨rfl, rfl, by decide, rfl⟩
+    rfl rfl rfl rfl rfl (by decide) (Or.inl ⟨[9], rfl⟩)
+  trivial
+
+/-- the same in acknowledged mode -/
+example : True := by
+  have h := C12_end_to_end_cancel_ack envS envD s d0 req rcS rcD "/a" "/b" F [182, 204, 66, 146] 2 1
+    ⟨⟨1, 2⟩, ⟨0, 2⟩⟩ 1 2 3 4 5
+    rfl rfl rfl rfl rfl rfl rfl rfl rfl (by decide) rfl rfl (by decide) (by decide) (by decide) (by decide) rfl rfl rfl
+    (by decide) (by decide +kernel) (by decide) rfl (by decide)
+    ⟨rfl, rfl, by decide, rfl⟩ (by decide)
+    rfl rfl rfl rfl rfl (by decide) (Or.inl ⟨[9], rfl⟩)
+  trivial
+
+end Ex
 
 end Cfdp.C12
